@@ -12,7 +12,13 @@ TraceQLSem part 3 (RunEval) models the evaluator: the complexity query decides b
 Portions(cx) executions of the SAME plan over the hash classes of the trace ids (complex_request_processor.go).  A case
 carries the complexity answer cx and the hash class of every trace; the driver answers the complexity statement with cx
 (after chsql has executed it), picks trace ids of the wanted classes, and the merged answer of the portions has to be
-what Eval accepts; the number of executions has to be TraceQLSem!Portions(cx)."""
+what Eval accepts; the number of executions has to be TraceQLSem!Portions(cx).
+
+Time is not only the tick: a case also carries the sub-second phase `ph` of the stored span timestamps (0 = whole
+seconds, 1 = every span starts off the second by an offset < 1 tick chosen by the driver).  Eval and the plan do not
+depend on it; the window start handed from one portion to the next does (TraceQLSem!NextFrom: the code recognises
+"no start taken yet" by a zero sub-second part).  The portion layer enumerates both phases, the other layers and the
+seeded sample derive / draw one per case, so every planner reads timestamps on and off the whole second."""
 import json
 import os
 import random
@@ -133,7 +139,7 @@ def rand_case(rnd):
         np = rnd.choice([1, 2, 2, 3, 3])
     cx = rnd.choice(CX_OF_NP[np])
     part = [rnd.randrange(np) if np else 0 for _ in db]
-    return {'q': q, 'db': db, 'cx': cx, 'part': part}
+    return {'q': q, 'db': db, 'cx': cx, 'part': part, 'ph': rnd.randint(0, 1)}
 
 
 def tla_case(c):
@@ -152,7 +158,7 @@ def tla_case(c):
     qs = 'Query(%s,<<%s>>,<<%s>>,%d,%d,%d,%s)' % (q(qq['kind']), ','.join(sel(s) for s in qq['sels']), ','.join(q(o) for o in qq['ops']),
                                                  qq['from'], qq['to'], qq['limit'], q(qq['vkey']))
     db = '<<%s>>' % ','.join('<<%s>>' % ','.join('Span(%s,%s,%s,%d,%d)' % (q(s['a']), q(s['b']), q(s['nm']), s['dur'], s['ts']) for s in tr) for tr in c['db'])
-    return 'RCP(%s,%s,%d,<<%s>>)' % (qs, db, c['cx'], ','.join(str(x) for x in c['part']))
+    return 'RCP(%s,%s,%d,<<%s>>,%d)' % (qs, db, c['cx'], ','.join(str(x) for x in c['part']), c['ph'])
 
 
 def run_module(layers, thorough, mods, seed, rand_cases, flags, port_every):
@@ -305,6 +311,7 @@ def run(tier):
                ['agg:' + a for a in ('count', 'avg', 'min', 'max', 'sum')] + ['chain:&&', 'chain:||', 'kind:tags', 'kind:values'] + \
                ['op:str' + o for o in STR_OPS] + ['op:num' + o for o in CMP_OPS] + ['op:dur' + o for o in CMP_OPS] + \
                ['pfx:.', 'pfx:span.', 'pfx:resource.'] + \
+               ['ph:0', 'ph:1', 'ph:0/np:2', 'ph:1/np:2', 'ph:0/np:3', 'ph:1/np:3'] + \
                ['np:0', 'np:1', 'np:2', 'np:3', 'split:1-of-2', 'split:2-of-2', 'split:2-of-3', 'split:3-of-3'] + \
                ['cx:%d' % x for x in (THRESHOLD - 1, THRESHOLD, THRESHOLD + 1, 2 * THRESHOLD - 1, 2 * THRESHOLD, 2 * THRESHOLD + 1, 3 * THRESHOLD)]
         missing = [f for f in need if not features.get(f)]
@@ -330,6 +337,7 @@ def run(tier):
                       'window_unix_s': det.get('window'), 'limit': det.get('limit'), 'data': det.get('data'),
                       'complexity_answer': det.get('complexity_answer'), 'portions': det.get('portions'),
                       'hash_class_of_trace': det.get('hash_class_of_trace'),
+                      'subsecond_offset_of_span_timestamps_ns': det.get('subsecond_offset_ns'),
                       'sql': obs.get('sql'), 'expected_any_of_trace_sequences': (case.get('def') or {}).get('seqs'),
                       'expected_spans_per_trace': (case.get('def') or {}).get('ms'), 'expected_strings': (case.get('def') or {}).get('strs'),
                       'observed': {k: obs.get(k) for k in ('status', 'err', 'err_text', 'seq', 'spans', 'strs', 'unknown', 'body',
@@ -423,6 +431,8 @@ def run(tier):
                     'for several selectors only the set/order of traces is compared exactly; reported spans must be a non-empty subset of the spans matched by the selectors',
                     'the complexity query is executed by chsql and then answered with the number the case scripts (no database has 1e7 rows); '
                     'trace ids are chosen so that cityHash64(trace_id) % portions is the hash class of the case',
+                    'all spans of a case share one sub-second offset (0, or one of a few values between 1 us and 999999 us): spans of one tick stay tied, '
+                    'window bounds are whole seconds as in the API',
                     'tags / values requests above the complexity threshold answer all tags (documented degradation): always run below it',
                     'groupArray(100) caps (more than 100 spans per trace) are outside the bounds']}
     finally:
